@@ -317,6 +317,8 @@ def run(ck):
     t0 = time.time()
     n_valid, n_tmpl, n_mut = ck.n(250, 4000), ck.n(1000, 12000), ck.n(350, 6000)
     try:
+        for fam, src in c03_gen.corpus():  # fixed witnesses first
+            c.one("corpus", fam.split(":", 1)[1], src)
         # interleave the three streams so that a time cut keeps all of them populated
         k = 0
         pool = []
